@@ -232,6 +232,19 @@ CORPUS_REC1 = [
 ]
 
 
+# analyze_recursive_functions = true: hand-picked programs of the mirrored stream td-rec1
+CORPUS_REC1B = [
+    # f(a) { if (a >= 1) { t := a - 1; r := f(t); r := r + 1 } else r := 0 } called with a in [0, 5]
+    "inter 2 5 | F 0 1 0 I 0 O 0 | F 1 4 3 I 1 0 O 1 1 | B 0 0 havoc 3 ; assume C le E 1 -1 3 0 ; assume C le E 1 1 3 -5 ; call 1 1 4 1 3 | B 1 1 assume C le E 1 -1 0 1 ; arith sub 2 0 k 1 ; call 1 1 1 1 2 ; arith add 1 1 k 1 | B 1 2 assume C le E 1 1 0 0 ; assign 1 E 0 0 | E 1 0 1 0 2 1 3 2 3",
+    # the same function as the only (entry) function, initial value a in [0, 5]
+    "inter 1 3 | F 0 4 3 I 1 0 O 1 1 | B 0 1 assume C le E 1 -1 0 1 ; arith sub 2 0 k 1 ; call 0 1 1 1 2 ; arith add 1 1 k 1 | B 0 2 assume C le E 1 1 0 0 ; assign 1 E 0 0 | E 0 0 1 0 2 1 3 2 3 | I C le E 1 -1 0 0 C le E 1 1 0 -5",
+    # mutual recursion f1 <-> f2 entered through the head and through the other member
+    "inter 3 6 | F 0 1 0 I 0 O 0 | F 1 4 3 I 1 0 O 1 1 | F 2 1 0 I 1 0 O 1 1 | B 0 0 assign 2 E 0 5 ; call 1 1 3 1 2 ; call 2 1 5 1 2 | B 1 1 assume C le E 1 1 0 0 ; assign 1 E 0 0 | B 1 2 assume C le E 1 -1 0 1 ; arith sub 4 0 k 1 ; call 2 1 1 1 4 | B 2 0 call 1 1 1 1 0 | E 1 0 1 0 2 1 3 2 3",
+    # a recursive function called twice with different contexts (summary reuse by inclusion)
+    "inter 2 5 | F 0 1 0 I 0 O 0 | F 1 4 3 I 1 0 O 1 1 | B 0 0 assign 3 E 0 2 ; call 1 1 4 1 3 ; assign 3 E 0 1 ; call 1 1 4 1 3 ; assign 3 E 0 9 ; call 1 1 4 1 3 | B 1 1 assume C le E 1 -1 0 1 ; arith sub 2 0 k 1 ; call 1 1 1 1 2 ; arith add 1 1 k 1 | B 1 2 assume C le E 1 1 0 0 ; assign 1 E 0 0 | E 1 0 1 0 2 1 3 2 3",
+]
+
+
 def nested_cycles(rng):
     """scripted: nested cycles of the call graph.  f heads the outer cycle, h the inner one, g belongs to
     both; the outer head calls the inner non-head member g directly and through h; every recursion
@@ -276,14 +289,15 @@ def rand_init(rng, nv):
 
 
 def gen(seed, tier, stream, n=None):
-    """streams: td-nonrec (mirrored), td-rec (recursion, imprecise mode mirrored), td-params (oracle + checker only),
+    """streams: td-nonrec (mirrored), td-rec (recursion, imprecise mode mirrored), td-rec1 (precise recursion, mirrored),
+    td-params (oracle + checker only),
     bu-nonrec, bu-rec, bu-zones"""
     rng = random.Random(seed)
     lines = []
     an = "bu" if stream.startswith("bu") else "td"
     quick = tier == "quick"
     n = n or {"td-nonrec": 1500 if quick else 25000, "td-rec": 1000 if quick else 15000, "td-params": 1200 if quick else 20000,
-              "td-mcc": 600 if quick else 10000,
+              "td-mcc": 600 if quick else 10000, "td-rec1": 1500 if quick else 25000,
               "bu-nonrec": 1500 if quick else 25000, "bu-rec": 1000 if quick else 15000, "bu-zones": 500 if quick else 8000}[stream]
     if stream in ("td-nonrec", "bu-nonrec", "bu-zones", "td-rec", "bu-rec", "td-params"):
         for c in CORPUS_TD:
@@ -297,6 +311,22 @@ def gen(seed, tier, stream, n=None):
             lines.append(with_opts(c, o))
     if stream == "td-mcc":
         lines += CORPUS_MCC
+    if stream == "td-rec1":
+        # analyze_recursive_functions = true, mirrored by coq/Ana/InterTDRec.v: corpus, scripted nested cycles
+        # of the call graph, then random call graphs (70% with direct / mutual recursion)
+        for c in CORPUS_TD + CORPUS_REC1 + CORPUS_REC1B:
+            lines.append(with_opts(c, [("an", "td"), ("rec", 1)]))
+            lines.append(with_opts(c, [("an", "td"), ("rec", 1), ("delay", 0), ("desc", 0), ("exact", 0)]))
+        for _ in range(40 if quick else 600):
+            nvn, fn = nested_cycles(rng)
+            lines.append(fmt_iprogram(nvn, fn, [("an", "td"), ("rec", 1), ("delay", rng.choice([0, 1, 2, 3])), ("desc", rng.choice([0, 1, 2])),
+                                                ("exact", rng.choice([0, 1]))]))
+        for _ in range(n):
+            nv, funcs = gen_iprogram(rng, recursive=rng.random() < 0.7)
+            o = [("an", "td"), ("rec", 1), ("delay", rng.choice([0, 1, 2, 2, 3])), ("desc", rng.choice([0, 1, 2, 2, 3])),
+                 ("exact", rng.choice([0, 1, 1])), ("chk", rng.choice([0, 0, 1]))]
+            lines.append(fmt_iprogram(nv, funcs, o, rand_init(rng, nv)))
+        return lines
     if stream == "td-params":
         lines += CORPUS_REC1
         for _ in range(16 if quick else 200):
